@@ -121,6 +121,11 @@ impl Vm {
       self.fiber_queue.push_back(new_fiber);
       self.current_fun = current_fun;
       self.load_ip();
+    } else {
+      // a native or a class without a laythe initializer has already run to completion
+      // and left its result where the callee was. Splitting a frame off takes the callee
+      // and its arguments with it so discard the result to leave the same stack
+      self.fiber.drop();
     }
 
     ExecutionSignal::Ok
